@@ -365,12 +365,16 @@ class C05Monitor(X.Monitor):
                 g = r.ground_truth_object
                 if g is None or id(g) in used or V.label_of(g) != V.label_of(r.estimated_object):
                     return
-                if r.center_distance.value is None or r.center_distance.value > 1e-6:
-                    return
-                if rm.q_angle_between(V.quat_of(g), V.quat_of(r.estimated_object)) > 1e-6:
-                    return
-                if tuple(g.state.size) != tuple(r.estimated_object.state.size):
-                    return
+                if V.is_2d(g):
+                    if V.roi_of(g) != V.roi_of(r.estimated_object) or V.frame_of(g) != V.frame_of(r.estimated_object):
+                        return
+                else:
+                    if r.center_distance.value is None or r.center_distance.value > 1e-6:
+                        return
+                    if rm.q_angle_between(V.quat_of(g), V.quat_of(r.estimated_object)) > 1e-6:
+                        return
+                    if tuple(g.state.size) != tuple(r.estimated_object.state.size):
+                        return
                 if track_of.setdefault(g.uuid, r.estimated_object.uuid) != r.estimated_object.uuid:
                     return
                 used.add(id(g))
@@ -684,7 +688,16 @@ def check_looser_passfail(ctx, lane, max_twins=4):
         for factor in (1.5, 4.0, "round1", "round0"):
             op = copy.deepcopy(st.op)
             pf = copy.deepcopy(st.pf_spec)
-            if factor == "round1":      # next value with one decimal, the way thresholds are usually written
+            dim2 = ctx.plan["config"].get("dim") == 2
+            if dim2:
+                # image objects pass on IoU: a looser threshold is a smaller one
+                if factor == "round1":
+                    pf["thr"] = [max(0.0, math.ceil(t * 10.0 - 1.0) / 10.0) for t in pf["thr"]]
+                elif factor == "round0":
+                    pf["thr"] = [0.0 for t in pf["thr"]]
+                else:
+                    pf["thr"] = [t / factor for t in pf["thr"]]
+            elif factor == "round1":      # next value with one decimal, the way thresholds are usually written
                 pf["thr"] = [math.floor(t * 10.0 + 1.0) / 10.0 for t in pf["thr"]]
             elif factor == "round0":    # next integer
                 pf["thr"] = [float(math.floor(t) + 1) for t in pf["thr"]]
@@ -714,8 +727,9 @@ def check_looser_passfail(ctx, lane, max_twins=4):
             tp_b = set(x for x in map(tuple, b["tp"]) if x[1] not in fp_labelled)
             fn_a = [u for u in a["fn"] if u not in fp_labelled]
             fn_b = [u for u in b["fn"] if u not in fp_labelled]
+            pf_attr = "iou_2d" if dim2 else "plane_distance"
             near = any(
-                r.plane_distance.value is not None and any(ref.near(r.plane_distance.value, t) for t in list(st.pf_spec["thr"]) + pf["thr"])
+                V.score_value(r, pf_attr) is not None and any(ref.near(V.score_value(r, pf_attr), t) for t in list(st.pf_spec["thr"]) + pf["thr"])
                 for r in st.result.object_results if r.ground_truth_object is not None
             )
             if near:
@@ -921,11 +935,16 @@ def _noise_plan(plan):
 
     noise_plan = dict(derive_sibling(plan, dx=-64.0, dy=211.0, dz=-0.3, dyaw=-1.1))
     cfg = copy.deepcopy(plan["config"])
-    cfg["frame"] = "map" if cfg["frame"] == "base_link" else "base_link"
-    if cfg.get("min_pts") is not None or cfg["task"] != "detection":
-        cfg["min_pts"] = 40 if not cfg.get("min_pts") else 0
-    if cfg.get("radii") is None:
-        cfg["radii"] = 1.5
+    if cfg.get("dim") == 2:
+        cfg["frame"] = list(reversed(cfg["frame"]))
+        if cfg.get("radii") is None:
+            cfg["radii"] = 25.0
+    else:
+        cfg["frame"] = "map" if cfg["frame"] == "base_link" else "base_link"
+        if cfg.get("min_pts") is not None or cfg["task"] != "detection":
+            cfg["min_pts"] = 40 if not cfg.get("min_pts") else 0
+        if cfg.get("radii") is None:
+            cfg["radii"] = 1.5
     noise_plan["config"] = cfg
     noise_plan["lookup"] = dict(plan["lookup"], interp=False)
     noise_plan["ops"] = [op for op in plan["ops"] if op["op"] != "analyze"]
